@@ -38,7 +38,8 @@ ASSUMPTIONS = ["both configurations are evaluated on fresh expression trees over
 
 def providers():
     from . import c10, c12, c15, c16
-    return {"multi": None, "forall": c10, "nested": c15, "ruletree": c12, "flatten": c16}
+    from .. import ix
+    return {"multi": None, "forall": c10, "nested": c15, "ruletree": c12, "flatten": c16, "ix": ix}
 
 
 def plan(tier, seed):
@@ -48,7 +49,7 @@ def plan(tier, seed):
 
 def floors(tier):
     return {"distinct_nontrivial": 300, "cls:took_cache_hit": 400, "cls:provider:multi": 300, "cls:provider:forall": 50,
-            "cls:provider:nested": 50, "cls:provider:ruletree": 30, "cls:provider:flatten": 50, "cls:more_than_500_rows_through_one_operator_cache": 20, "cache.check.hit": 2000, "cache.retrieve": 1000}
+            "cls:provider:nested": 50, "cls:provider:ruletree": 30, "cls:provider:flatten": 50, "cls:provider:ix": 200, "cls:more_than_500_rows_through_one_operator_cache": 20, "cache.check.hit": 2000, "cache.retrieve": 1000}
 
 
 def _gen_multi(rng):
@@ -103,7 +104,10 @@ def cases(spec, ctx):
             yield {"provider": "multi", "case": _gen_large(rng)}
             continue
         k = rng.random()
-        if k < 0.55:
+        if k < 0.12:
+            from .. import ix
+            yield {"provider": "ix", "case": ix.gen_case(rng)}
+        elif k < 0.55:
             yield {"provider": "multi", "case": _gen_multi(rng)}
         elif k < 0.62:
             yield {"provider": "flatten", "case": provs["flatten"].gen_case(rng)}
